@@ -24,7 +24,7 @@ var (
 		}}
 	tgtTOML = &textTarget{name: "decodetoml", nsel: len(decoderTypes), run: tomlTarget, seeds: mkSeeds(len(decoderTypes), docsTOML), alphabet: alphaTOML, structured: docGen("toml"),
 		selNames: func(s int) string { return decoderTypes[s%len(decoderTypes)].name }}
-	tgtCue = &textTarget{name: "decodecue", nsel: len(decoderTypes), run: cueTarget, seeds: mkSeeds(len(decoderTypes), append(append([]string{}, docsCue...), docsJSON...)), alphabet: alphaCue, structured: docGen("cue"),
+	tgtCue = &textTarget{name: "decodecue", nsel: len(decoderTypes), run: cueTarget, seeds: mkSeeds(len(decoderTypes), append(append(append([]string{}, docsCue...), docsJSON...), cuePanicDocs()...)), alphabet: alphaCue, structured: docGen("cue"),
 		selNames: func(s int) string { return decoderTypes[s%len(decoderTypes)].name }}
 	tgtEnv = &textTarget{name: "envvalue", nsel: len(envLeaves) + 1, run: runEnvValue, seeds: mkSeeds(len(envLeaves)+1, seedsEnvValues), alphabet: alphaEnv,
 		selNames: func(s int) string {
@@ -72,6 +72,9 @@ func fuzzTarget(f *testing.F, tg *textTarget, hostileStride int, always ...textS
 		f.Add(uint8(s.sel), []byte(s.data))
 	}
 	f.Fuzz(func(t *testing.T, sel uint8, data []byte) {
+		if hangSeen.Load() {
+			t.Skip("a call hung earlier in this process; not piling up more hung goroutines")
+		}
 		r := tg.run(int(sel)%tg.nsel, data)
 		if r.viol != nil {
 			if knownDefect(r.viol.key) {
